@@ -134,8 +134,8 @@ def main(tier, seed):
         if name in ("stops_with_prob_half", "body_is_one_if"):
             # central moments / cumulants after the loop through the goal handlers (four powers of the goal: slower)
             items[-1].update(want_extra=["after_stats"], timeout=400)
-    gen_items = C.generated(seed, 30 if quick else 100, profile={"guard": "flag"}, ngoals=3) + \
-        C.generated(seed + 1, 20 if quick else 60, profile={"guard": "counter"}, ngoals=3, prefix="genc")
+    gen_items = C.generated(seed, 20 if quick else 100, profile={"guard": "flag"}, ngoals=3) + \
+        C.generated(seed + 1, 12 if quick else 60, profile={"guard": "counter"}, ngoals=3, prefix="genc")
     items += gen_items
     return analysis_check("C09", tier, seed, items=items, want=["parsed", "term", "after"], builders=[C.b_source, C.b_term],
                           N=6 if quick else 9, timeout=120, key_fn=key_fn, post=limit_part,
